@@ -50,9 +50,74 @@ def run_seed(verif_seed, cid, index):
     return ctx.subseed(verif_seed, cid, index)
 
 
+RUN_LIMIT = float(os.environ.get('ZSIM_RUN_LIMIT', '150'))
+
+
+class RunTimeout(BaseException):
+    """One run used more than RUN_LIMIT real seconds (normal runs take
+    milliseconds to a few seconds): the code under test does not
+    terminate on this case."""
+
+
+def _zodb_frames(frame, n=4):
+    out = []
+    while frame is not None:
+        fn = frame.f_code.co_filename
+        if '/ZODB/' in fn or '/zsim/' in fn:
+            out.append('%s:%d %s' % (fn.split('/src/')[-1].split(
+                '/verif/')[-1], frame.f_lineno, frame.f_code.co_name))
+        frame = frame.f_back
+    return out[:n]
+
+
+def _on_alarm(signum, frame):
+    import threading
+    where = {'main': _zodb_frames(frame)}
+    for tid, fr in sys._current_frames().items():
+        if tid != threading.main_thread().ident:
+            fs = _zodb_frames(fr)
+            if fs and 'sched.py' not in fs[0]:
+                where['thread-%d' % (len(where))] = fs
+    raise RunTimeout(json.dumps(where))
+
+
+def _stop_stray_threads():
+    """After a run that did not terminate: unwind task threads that are
+    still executing (parked ones stay parked, harmlessly)."""
+    import ctypes
+    import threading
+    for th in threading.enumerate():
+        if th is not threading.main_thread() and th.name.startswith('zsim-'):
+            ctypes.pythonapi.PyThreadState_SetAsyncExc(
+                ctypes.c_ulong(th.ident), ctypes.py_object(ctx.SimAbort))
+
+
 def run_one(mod, case):
     """Run one case in this process with full per-run hygiene.  Returns the
-    result dict (never raises for property violations)."""
+    result dict (never raises for property violations).  A run that does
+    not finish within RUN_LIMIT real seconds is a violation
+    ('does-not-terminate'), not a harness error."""
+    import signal
+    old = signal.signal(signal.SIGALRM, _on_alarm)
+    signal.setitimer(signal.ITIMER_REAL, RUN_LIMIT)
+    try:
+        return _run_one(mod, case)
+    except RunTimeout as e:
+        ctx.deactivate()
+        _stop_stray_threads()
+        return {'violations': [{
+            'oracle': 'does-not-terminate',
+            'detail': 'the run did not finish within %d real seconds '
+                      '(runs of this check take milliseconds to seconds); '
+                      'executing: %s' % (RUN_LIMIT, str(e)[:600])}],
+            'stats': {'runs_timed_out': 1}, 'keys': [], 'evals': 1,
+            'sample': None, 'digest': 'timeout'}
+    finally:
+        signal.setitimer(signal.ITIMER_REAL, 0)
+        signal.signal(signal.SIGALRM, old)
+
+
+def _run_one(mod, case):
     seams.install()
     seams.reset_process_globals()
     from . import objs
